@@ -4,7 +4,7 @@ CONSTANTS
   MaxNow = 4
   AllowAhead = 1
   RH = {1, 2}
-  RS0 = {-1, 0, 1}
+  RS0 <- RS0all
 SPECIFICATION Spec
 INVARIANTS OnlyWinning NotEarly LookAhead NoDoubleMining
 PROPERTIES AbandonOnStale
